@@ -217,12 +217,19 @@ Theorem c02_symbol_sid : forall l w n,
   new_symbol_token l w = match tok_by_sid l n with Some k => Ok k | None => Err end.
 Proof. exact new_symbol_token_sid. Qed.
 Print Assumptions c02_symbol_sid.
+(* beyond 2^63-1 no table defines the ID: the reader rejects the token (it is not read as text) *)
+Theorem c02_symbol_sid_out_of_range : forall l w n,
+  sid_spells w n -> (9223372036854775807 < n)%N -> new_symbol_token l w = Err.
+Proof. exact new_symbol_token_sid_out_of_range. Qed.
+Print Assumptions c02_symbol_sid_out_of_range.
 Theorem c02_symbol_text : forall l w,
   ident_chars w -> not_sid_form w -> new_symbol_token l w = Ok (name_symbol_token l w).
 Proof. exact new_symbol_token_text. Qed.
 Print Assumptions c02_symbol_text.
 Example c02_symbol_sid_ex : sid_spells (s "$007") 7.
 Proof. exact sid_example. Qed.
+Example c02_symbol_sid_out_of_range_ex : sid_spells (s "$9223372036854775808") 9223372036854775808.
+Proof. exact sid_example_big. Qed.
 
 (* ======== 6. lobs ========================================================================================= *)
 Theorem c02_read_blob : forall w chars bytes rest t,
